@@ -608,10 +608,14 @@ def ctor_cases(tier):
         for u in users:
             out.append(mk(bset='near', user=u, flow=0.01))
         for unit in ('cm', 'ft'):
-            for u in ('file5mm', 'zero'):
+            for u in ('file5mm', 'zero', 'tiny'):
                 out.append(mk(unit=unit, bset='mid', user=u, flow=0.01))
     for u in ('half', 'equal', 'above'):      # requirement above the 1 cm cap
         out.append(mk(bset='mid', user=u, flow=0.5))
+    for cool in (None, 'sodium'):
+        out.append(mk(bset='mid', tol=0.05, coolant=cool))
+        out.append(mk(bset='plain', tol=0.01, flow=0.01, coolant=cool))
+    out.append(mk(layout='core7', bset='mid', gap='no_flow', tol=0.05))
     out.append(mk(unit='ft', lenround=6))
     out.append(mk(unit='ft', lenround=6, user='half', flow=0.01))
     for flow in (0.001, 1e-4, 1e-6):
@@ -658,8 +662,10 @@ def ctor_scenario(c, user_file):
         setup['axial_plane'] = list(planes)
     if user_file is not None:
         setup['axial_mesh_size'] = user_file
+    if c.get('tol'):
+        setup['param_update_tol'] = c['tol']
     if c['layout'] == 'single':
-        scn = S.single(dsn, c['flow'], length=L, power=P, setup=setup)
+        scn = S.single(dsn, c['flow'], length=L, power=P, setup=setup, coolant=c.get('coolant'))
     else:
         scn = {'setup': setup,
                'core': {'length': L, 'pitch': round(max(dsn['duct_ftf']) + 0.004, 9),
@@ -774,6 +780,20 @@ def run_ctor(c):
         r['states'] += len(p0['r'].z)
     p = _construct(c, user_file, user_kw)
     r['transitions'] += 1
+    if c.get('tol') and p['outcome'] == 'built':
+        # the step requirements are a property of geometry, flow and the inlet..outlet temperature range;
+        # the correlation-update tolerance (which only decides WHEN correlations are re-evaluated during
+        # the sweep) must not change them: differential twin with the tolerance switched off
+        p0 = _construct(dict(c, tol=0.0), user_file, user_kw)
+        r['transitions'] += 1
+        if p0['outcome'] == 'built':
+            a0 = [float(x) for x in p0['r'].min_dz['dz']]
+            a1 = [float(x) for x in p['r'].min_dz['dz']]
+            # (only the unsafe direction, and beyond the relative drift the tolerance itself permits)
+            if len(a0) != len(a1) or any(y > x * (1.0 + c['tol']) for x, y in zip(a0, a1)):
+                bad('requirement-relaxed-by-update-tolerance', 'step requirements with param_update_tol=%s exceed '
+                    'those of the same input with the tolerance off' % c['tol'], a1, a0, c['tol'],
+                    'region_rodded.py:calculate_min_dz')
     return _judge_ctor(c, aug, p, r, bad)
 
 
@@ -787,6 +807,14 @@ def _judge_ctor(c, aug, p, r, bad):
         reqs = [float(x) for x in obj.min_dz['dz']]
         user = obj._options['axial_mesh_size']
         user = None if user is None else float(user)
+        if c['user'] in ('zero', 'subres', 'tiny', 'file5mm', '1m'):
+            # the request was written in the input file (in the length unit of the file): what the
+            # Reactor works with must be that request in metres
+            want = float(c['user_dz'])
+            if user is None or abs(user - want) > 1e-12 * max(abs(want), 1e-30) + 1e-18:
+                bad('user-request-misread', 'axial_mesh_size written in the input file (%s) is not the request the '
+                    'Reactor works with' % c['unit'], user, want, 1e-12 * abs(want), 'read_input.py:convert_length')
+                user = want
         aug['req_floor_zero'] = bool(floor_um(min(reqs)) == 0.0)
         aug['user_dz'] = user
         aug['user_zero'] = bool(user is not None and user == 0.0)
